@@ -63,6 +63,8 @@ type FuncContract struct {
 
 var recvInvRe = regexp.MustCompile(`^invariant\s+\(\*?(\w+)\)\s+(\w+)\s*(\[[A-Z0-9,]*\])?\s+([A-Za-z0-9_\-.]+):\s*(.*)$`)
 var typeInvRe = regexp.MustCompile(`^type-invariant\s+(\w+)\s+(\w+)\s*(\[[A-Z0-9,]*\])?\s+([A-Za-z0-9_\-.]+):\s*(.*)$`)
+var nodeInvRe = regexp.MustCompile(`^node-invariant\s+(\w+)\s+(\w+)\s*(\[[A-Z0-9,]*\])?\s+([A-Za-z0-9_\-.]+):\s*(.*)$`)
+var totalRe = regexp.MustCompile(`^total\s+(\w+)\s*$`)
 var frameRe = regexp.MustCompile(`^postcondition\s+\(\*?(\w+)\)\s*(\[[A-Z0-9,]*\])?\s+([A-Za-z0-9_\-.]+):\s*(.*)$`)
 var defineRe = regexp.MustCompile(`^define\s+(\w+)\(([^)]*)\):\s*(.*)$`)
 var clauseRe = regexp.MustCompile(`^(requires|ensures|lemma|assume|witness|flag)(\[[A-Z0-9,]*\])?\s+([A-Za-z0-9_\-.]+):\s*(.*)$`)
@@ -170,6 +172,28 @@ func (w *World) loadContractFile(pkg, file string) error {
 			w.typeInv[key] = append(w.typeInv[key], c)
 			cur = &FuncContract{Key: pkg + ".typeinv." + m[1], Pkg: pkg, Loops: map[int][]*Clause{}, Params: map[string][]*Clause{}, Flags: map[string]bool{}}
 			last = c
+			continue
+		}
+		if m := nodeInvRe.FindStringSubmatch(txt); m != nil {
+			// an invariant of every value of an AST node type that is ever boxed into an AST interface:
+			// owed where such a value is converted to the interface, available for every interface value
+			if w.nodeInv == nil {
+				w.nodeInv = map[string][]*Clause{}
+			}
+			c := &Clause{Kind: "nodeinv", Props: parseProps(m[3]), Label: m[4], Text: m[5], Param: m[2], File: file, Line: i + 1}
+			key := pkg + "." + m[1]
+			w.nodeInv[key] = append(w.nodeInv[key], c)
+			cur = &FuncContract{Key: pkg + ".nodeinv." + m[1], Pkg: pkg, Loops: map[int][]*Clause{}, Params: map[string][]*Clause{}, Flags: map[string]bool{}}
+			last = c
+			continue
+		}
+		if m := totalRe.FindStringSubmatch(txt); m != nil {
+			// an AST interface method that never panics on a non-nil receiver (justified by the safety
+			// obligations of its implementations, which are verified under the node invariants)
+			if w.totalMethods == nil {
+				w.totalMethods = map[string]bool{}
+			}
+			w.totalMethods[m[1]] = true
 			continue
 		}
 		if m := frameRe.FindStringSubmatch(txt); m != nil {
